@@ -109,6 +109,15 @@
 // #![warn(missing_docs)] -- suppressed at top of file (P3.7 task)
 #![deny(unsafe_op_in_unsafe_fn)]
 
+// Verification hook H2: inside this crate `is_x86_feature_detected!` is additionally subject to
+// the tier cap of `verif_hooks::feature_allowed` (textual macro scope covers every module below).
+#[cfg(all(zipora_verif, any(target_arch = "x86", target_arch = "x86_64")))]
+macro_rules! is_x86_feature_detected {
+    ($feature:tt) => {
+        (::std::is_x86_feature_detected!($feature) && $crate::verif_hooks::feature_allowed($feature))
+    };
+}
+
 pub mod algorithms;
 pub mod blob_store;
 pub mod cache;
